@@ -16,6 +16,41 @@ CHECKS = {
          "Every string over the HTML byte alphabet (29 symbols, <=5; 20-symbol core to 6-7 in thorough) and the fragment alphabet (43 markup openers/terminators, <=4/<=5, token trace in all five contexts), every cut of every fixture, and opener+unit^k+closer repetitions up to 1 MB (8 MB thorough) run through the real IsXSS; panic, fatal error (stack exhaustion), hang or out-of-range offset is a violation.",
          "Nothing is claimed beyond the enumerated alphabets and levels. Stack exhaustion is observed as a fatal error of an isolated worker, confirmed by re-running the journalled case alone three times.",
          "4 C02"),
+ "C04": ("model_checking",
+         "exhaustive enumeration of a finite calibrated vector grammar (complete product, no sampling) on the public API",
+         "The complete product of the vector grammar - every shipped and every pinned-baseline black tag, event handler, black/style attribute, URL attribute x scheme x scheme obfuscation, indirect attribute, doctype/entity/import/xml/IE-conditional/back-tick markup, times every breakout prefix of the five contexts, times lower/UPPER/alternating/every single-letter flip and a NUL at every interior name position (about 12 M members in thorough, 8.6 M in quick) - is run through IsXSS and every member must be reported. The grammar was calibrated once on the repaired pinned tree (all members detected) and is fixed in c04.go.",
+         "The guarantee is exactly the enumerated grammar; list entries come from the current tables and from a pinned baseline copy so removals are misses and additions are covered.",
+         "4 C04"),
+ "C07": ("model_checking",
+         "reference-model trace conformance: independent executable model (refhtml) vs implementation, compared field by field on every state of a bounded-exhaustive trie search, in all five contexts",
+         "For every string over the HTML byte alphabet (<=5; 20-symbol core to 6-7 in thorough), the fragment alphabet (<=4/<=5) and every fixture cut, in each of the five start contexts, the model's trace (token type/offset/length stream and per-context verdict; IsXSS = OR) is compared with the implementation's; tag/attribute/URL predicates are compared on every list entry x case/NUL/near-miss variants and on URL-fragment strings.",
+         "The model mirrors five deliberate port-level behaviours (DESIGN.md section 6); it reads the project's own lists through the hooks. Conformance beyond the enumerated levels is not claimed.",
+         "4 C07"),
+ "C11": ("model_checking",
+         "bounded-exhaustive trie search x deviation-bounded case re-assignments (all 2^k for k<=8 letters, else <=2 flips) and NUL insertions at every interior name position, differential on the real code",
+         "Every lower-case base string over the HTML alphabets (H1<=5, fragments<=3/<=4) and every grammar vector: all 2^k case assignments (k<=8) or lower/UPPER/all single+double flips must leave IsXSS unchanged (bases containing [cdata[ excluded); for every base, context, TAG_NAME_OPEN/ATTR_NAME token of the real stream and interior position (pairs in thorough) a NUL insertion must leave that context's verdict unchanged.",
+         "Differential oracle between two runs of the real code; no expectation is hand-written. Case deviations >2 flips on bases with >8 letters are not enumerated.",
+         "4 C11"),
+ "C13": ("model_checking",
+         "bounded-exhaustive trie search with differential oracles between runs of the real code (OR of contexts, context-vs-embedded, prefix invariance)",
+         "For every string over H1<=5 (core to 6 in thorough), fragments <=4/<=5 and every fixture cut: IsXSS equals the OR of the five per-context verdicts; each attribute-context verdict equals the data verdict of the string embedded after `<a `, `<a b='`, `<a b=\"`, `<a b=` + back-tick; prepending each of 18 '<'-free texts leaves the data verdict unchanged.",
+         "The per-context accessor calls the same isXSS(input, flags) as the public API. Nothing beyond the enumerated levels is claimed.",
+         "4 C13"),
+ "C15": ("model_checking",
+         "bounded-exhaustive trie search over the alphabets minus '<' and '=' on the public API",
+         "Every string over (H1 minus < =)<=5/<=6 and over the fragment alphabet minus atoms containing those bytes plus encoded forms (&#60; &#61; javascript: on* href style ...)<=4/<=5, and every fixture cut with both bytes deleted, must give IsXSS=false.",
+         "Nothing beyond the enumerated levels is claimed.",
+         "4 C15"),
+ "C17": ("model_checking",
+         "bounded-exhaustive trie search with order/bounds invariants + complete enumeration of construct bodies against an independent first-terminator oracle and an empty-construct differential",
+         "(a) every string over H1<=5, fragments<=4/<=5 and every fixture cut in five contexts: tokens inside the input, non-overlapping, in order, at most |s|+1; (b) for 9 delimited constructs, every body over the construct's terminator/decoy alphabet up to length 8 (9 thorough) x 3 tails: the construct token starts after the opener, ends at the first terminator found by a plain forward search, and the tokens after it equal those after an empty construct (state reached from elsewhere).",
+         "The terminator oracles are strings.Index / an explicit pattern scan, independent of the tokenizer.",
+         "4 C17"),
+ "C19": ("model_checking",
+         "exhaustive trie search of the decoder against a written specification + deviation-bounded exhaustive enumeration of scheme encodings (all combinations for short schemes, <=3/<=4 deviations for long ones)",
+         "Decoder: every string over {& # x X ; 0 1 9 a F g space}<=7 (8 thorough) and the overflow family: (value, consumed) equals the specification, 1<=consumed<=|s|. Matcher: every scheme x per-byte encoding combination (7 forms) x 8 leading-junk prefixes x NUL/LF (raw or reference) at every piece boundary must satisfy the URL predicate, and IsXSS(<a ATTR=VALUE>) for every URL attribute x 3 quotings on the <=2/<=3 deviation subset.",
+         "Encodings where an unterminated reference swallows the next literal digit are excluded. Deviation bound reported in the evidence.",
+         "4 C19"),
 }
 
 NOT_YET = {
